@@ -1244,7 +1244,9 @@ class World:
         for k, t in self.T.items():
             g = self.read_grad(t, k)
             ga = None if g is None else np.asarray(g)
-            cp[k] = (t.data.tobytes(), str(t.dtype), t.shape, None if ga is None else (ga.tobytes(), str(ga.dtype), ga.shape), bool(t.constant))
+            i = self.info[k]
+            leftover = bool((i.stale or i.fam.born == -1) and t.base is not None)  # view left over from a cleared family
+            cp[k] = (t.data.tobytes(), str(t.dtype), t.shape, None if ga is None else (ga.tobytes(), str(ga.dtype), ga.shape), bool(t.constant), leftover)
             del g
         self.checkpoints.append({"step": self.nstep, "tgt": rec["h"], "state": cp, "reach": set(rec.get("reach_handles") or []), "judged": rec.get("expected") is not None and not rec.get("tainted")})
 
